@@ -992,10 +992,10 @@ def gen_semantic_probe_pivoted(rng):
         zk = rng.choice([1, 3, -2, Fraction(5, 2)])
         sc.add("varlin %s" % lin_str(zt, zk))
         qz = eval_lin((zt, zk), q)
-        z = nv
+        z = "z0"
         lower = qz > zk or (qz == zk and rng.random() < 0.5)      # a bound the initial value (= zk) violates when possible
         bval = qz - rng.choice([0, Fraction(1, 2)]) if lower else qz + rng.choice([0, Fraction(1, 2)])
-        sc.add("%s %d %s,0/1" % ("setlb" if lower else "setub", z, fr(bval)))
+        sc.add("%s %s %s,0/1" % ("setlb" if lower else "setub", z, fr(bval)))
         roots.append(("geq" if lower else "leq", (zt, zk), ([], bval)))
         zdef = (z, zt, zk, qz)
     # the target: c*x (sometimes c*x + d*y) against a constant at / next to the probe point
@@ -1008,7 +1008,7 @@ def gen_semantic_probe_pivoted(rng):
     tval = eval_lin((terms, 0), q)
     if zdef and rng.random() < 0.5:      # the slack itself in the target
         cz = rng.choice([1, 2, -1, Fraction(1, 2)])
-        terms = sorted(terms + [(zdef[0], cz)])
+        terms = terms + [(zdef[0], cz)]
         tval += cz * zdef[3]
     const = tval + rng.choice([0, 0, 0, 1, -1, Fraction(1, 2)])
     sc.add(("eq %s | %s" if kind == "eq" else "rel " + kind + " %s | %s") % (lin_str(terms, 0), lin_str([], const)))
